@@ -478,6 +478,27 @@ def run_bp_case(name, dtype, raw, t, is_async, dest_kind, rng):
                     fail("tiled-roundtrip-dtype-or-shape", f"tiled read (limit {limit}, {len(rrs)} tiles, dest={dest_kind}) gave dtype {out.dtype} shape {list(out.shape)}")
                 elif C17_bits(out) != expected:
                     fail("tiled-roundtrip-bits", f"tiled read (limit {limit}, {len(rrs)} tiles, dest={dest_kind}) result has different bits")
+        # 5. the same tensor saved in CHUNKS (ChunkedTensorIOPreparer: what every tensor above the chunk knob goes
+        # through) and read back into: nothing / a matching destination / a destination of ANOTHER dtype (it must be
+        # replaced by a tensor of the recorded dtype and shape, not returned untouched)
+        if t.nelement() > 1 and t.dim() >= 1 and t.shape[0] > 1:
+            from torchsnapshot.io_preparers.chunked_tensor import ChunkedTensorIOPreparer
+            csz = max(1, (es * t.nelement()) // 2)
+            inst = ChunkedTensorIOPreparer.chunk_tensor(t, chunk_sz_bytes=csz)
+            centry, cwrs = ChunkedTensorIOPreparer.prepare_write("loc", t, chunking_instruction=inst, is_async_snapshot=is_async)
+            cbufs = {w.path: bytes(C17_run(w.buffer_stager.stage_buffer())) for w in cwrs}
+            other = torch.float64 if dtype != torch.float64 else torch.int32
+            for dk in ("none", "same", "other-dtype"):
+                dest = None if dk == "none" else torch.zeros(shape, dtype=dtype if dk == "same" else other)
+                rrs, fut = ChunkedTensorIOPreparer.prepare_read(centry, dest)
+                for rr in rrs:
+                    b = cbufs[rr.path]
+                    C17_run(rr.buffer_consumer.consume_buffer(b if rr.byte_range is None else b[rr.byte_range[0]:rr.byte_range[1]]))
+                out = fut.obj
+                if out.dtype != dtype or list(out.shape) != shape:
+                    fail("chunked-roundtrip-dtype-or-shape", f"chunked read ({len(inst)} chunks, destination {dk}) gave dtype {out.dtype} shape {list(out.shape)}")
+                elif C17_bits(out) != expected:
+                    fail("chunked-roundtrip-bits", f"chunked read ({len(inst)} chunks, destination {dk}) result has different bits")
     except Exception as e:
         fail("stager-consumer-raises", f"stager->consumer raised {type(e).__name__}: {str(e)[:120]}")
     return fails, got
